@@ -73,7 +73,15 @@ for n in sorted(matrix):
     own = n.split("_")[0]
     cb = matrix[n].get("caught_by", [])
     if own not in cb: missed.append(n)
-    rows.append("| %s | %s | %s |" % (n, own, ", ".join(("**%s**" % c) if c == own else c for c in cb) or "-"))
+    extra = ""
+    if own not in cb:   # not its own property's business (a concurrency / lifetime defect, or thorough-tier only): what reported it when it was confirmed
+        try:
+            meta = json.load(open(os.path.join(VERIF, "seeded", n, "meta.json")))
+            rec = [c for c in meta.get("confirmed", {}).get("caught_by_quick_checks", []) if c not in cb]
+            if rec: extra = " (when confirmed: %s)" % ", ".join(rec)
+        except Exception:
+            pass
+    rows.append("| %s | %s | %s%s |" % (n, own, ", ".join(("**%s**" % c) if c == own else c for c in cb) or "-", extra))
 open(os.path.join(VERIF, "seeded", "MATRIX.md"), "w").write("\n".join(rows) + "\n")
 json.dump(matrix, open(mpath, "w"), indent=1, sort_keys=True)
 print("missed by its own property's check:", missed)
